@@ -53,6 +53,8 @@ THEOREMS = {
         "Shroud.Splicer.witness_ff",
         "Shroud.Splicer.witness_column_one",
         "Shroud.Splicer.witness_newline",
+        "Shroud.Splicer.witness_cr",
+        "Shroud.Splicer.protect_noNL",
         "Shroud.Splicer.carriage_unrestricted_false",
         "Shroud.Splicer.outside_ignored",
         "Shroud.Splicer.outside_ignored_tail",
@@ -361,6 +363,134 @@ def gen_ops(r):
     return ops
 
 
+# ------------------------------------------------------------------ tie of main_with_args itself
+class _Capture:
+    got = None
+
+    def __init__(self, lang):
+        self.lang = lang
+
+    def __call__(self, newlibrary, config, splicers):
+        _Capture.got[self.lang] = splicers
+        return self
+
+    def wrap_library(self):
+        pass
+
+    def write_impl_utility(self):
+        pass
+
+
+def real_main(tmp, k, cmd, dirs, yaml_entries, code, path_arg):
+    """The real main_with_args in-process on a tiny library; the four wrapper classes are replaced by recorders of the
+    `splicers[...]` dictionary they are constructed with.
+    cmd: [(ext, content)], dirs: [{name: content}], yaml_entries: [(suffix, [names])], code: {lang: nested} or None."""
+    import yaml
+    from shroud import wrapc, wrapf, wrapp, wrapl
+    from tools import shroudrun
+    wd = os.path.join(tmp, "mw%d" % k)
+    os.makedirs(os.path.join(wd, "out"))
+    dpaths = []
+    for i, files in enumerate(dirs):
+        dp = os.path.join(wd, "p%d" % i)
+        os.makedirs(dp)
+        dpaths.append(dp)
+        for name, content in files.items():
+            with open(os.path.join(dp, name), "w", newline="", encoding="utf-8") as fp:
+                fp.write(content)
+    cmdpaths = []
+    for i, (ext, content) in enumerate(cmd):
+        cp = os.path.join(wd, "cmd%d%s" % (i, ext))
+        with open(cp, "w", newline="", encoding="utf-8") as fp:
+            fp.write(content)
+        cmdpaths.append(cp)
+    doc = {"library": "tiny", "options": {"wrap_python": True, "wrap_lua": True},
+           "declarations": [{"decl": "void f()"}]}
+    if yaml_entries:
+        doc["splicer"] = {sfx: list(names) for sfx, names in yaml_entries}
+    if code is not None:
+        doc["splicer_code"] = copy.deepcopy(code)
+    ypath = os.path.join(wd, "tiny.yaml")
+    with open(ypath, "w") as fp:
+        yaml.safe_dump(doc, fp, default_flow_style=False, sort_keys=False, width=10000)
+    # --path entries: the directories, some of them joined by ':' as the option allows
+    path = []
+    for i, dp in enumerate(dpaths):
+        if path_arg == "joined" and path:
+            path[-1] = path[-1] + ":" + dp
+        else:
+            path.append(dp)
+    saved = (wrapc.Wrapc, wrapf.Wrapf, wrapp.Wrapp, wrapl.Wrapl)
+    _Capture.got = {}
+    wrapc.Wrapc, wrapf.Wrapf, wrapp.Wrapp, wrapl.Wrapl = _Capture("c"), _Capture("f"), _Capture("py"), _Capture("lua")
+    try:
+        cfg, exc, _out = shroudrun.run_inproc([ypath] + cmdpaths, os.path.join(wd, "out"), path=path or [wd])
+    finally:
+        wrapc.Wrapc, wrapf.Wrapf, wrapp.Wrapp, wrapl.Wrapl = saved
+    common.rmtree(wd)
+    if exc is not None:
+        if isinstance(exc, RuntimeError) and str(exc.args[0] if exc.args else "").startswith("File not found"):
+            return "crash RuntimeError notfound"
+        return "crash " + exc_name(exc)
+    got = _Capture.got
+    if sorted(got) != ["c", "f", "lua", "py"]:
+        return "crash wrappers-not-constructed %s" % sorted(got)
+    return "ok " + " ".join(canon_dict(enc_dict(flatten(got[l]))) for l in ("c", "f", "py", "lua"))
+
+
+def canon_mw(resp):
+    if not resp.startswith("ok "):
+        return resp
+    return "ok " + " ".join(canon_dict(t) for t in resp[3:].split(" "))
+
+
+def gen_main_case(r):
+    uniq = [0]
+
+    def content(good=0.85):
+        # mostly well-formed files with names of their own, so that most runs get through to the wrappers
+        if r.random() < good:
+            uniq[0] += 1
+            names = ["u%d" % uniq[0], "function.g%d" % uniq[0], "class.K.method.m%d" % uniq[0], "a.u%d" % uniq[0]]
+            if r.random() < 0.25:
+                names += ["a.b", "c", "function.foo"]       # shared between files: "Tag already exists" etc.
+            lines = []
+            for n in r.sample(names, r.randrange(1, 4)):
+                lines.extend(gen_valid_block(r, [n]))
+                lines.append(r.choice(["junk", "", "splicer begin zz"]))
+            return "".join(l + r.choice(TERM) for l in lines)
+        return gen_malformed(r)
+
+    cmd = [(r.choice([".c", ".f", ".py", ".lua", ".h", ".f90", ".cpp", ".txt", ".F"]), content()) for _ in range(r.randrange(0, 4))]
+    ndirs = r.randrange(1, 4)
+    dirs = [dict() for _ in range(ndirs)]
+    fnames = ["s1.c", "s2.f", "common.txt", "x.lua", "dup.c"]
+    for fn in fnames:
+        for d in dirs:
+            if r.random() < 0.45:
+                d[fn] = content()
+    yaml_entries = []
+    for sfx in r.sample(["c", "f", "py", "lua", "zz"], r.randrange(0, 4)):
+        yaml_entries.append((sfx, [r.choice(fnames + (["missing.c"] if r.random() < 0.15 else [])) for _ in range(r.randrange(0, 3))]))
+    code = None
+    if r.random() < 0.6:
+        code = {}
+        for l in r.sample(["c", "f", "py", "lua"], r.randrange(1, 4)):
+            code[l] = gen_nested(r)
+    return cmd, dirs, yaml_entries, code, r.choice(["separate", "joined"])
+
+
+def enc_main_case(cmd, dirs, yaml_entries, code):
+    toks = ["N/%d" % len(dirs)]
+    toks += ["C/%s/%s" % (common.enc(e), common.enc(c)) for e, c in cmd]
+    for i, d in enumerate(dirs):
+        toks += ["P/%d/%s/%s" % (i, common.enc(n), common.enc(c)) for n, c in d.items()]
+    toks += ["Y/%s/%s" % (common.enc(sfx), common.encs(names)) for sfx, names in yaml_entries]
+    if code:
+        toks += ["K/%s/%s" % (common.enc(l), enc_dict(flatten(d))) for l, d in code.items()]
+    return "mw " + " ".join(toks)
+
+
 # ------------------------------------------------------------------ tie
 def tie(ctx, ok, tmp):
     thorough = ctx.tier == "thorough"
@@ -412,6 +542,10 @@ def tie(ctx, ok, tmp):
         add("ws %d %s %s %d %d %s %s %s" % (1 if show else 0, common.enc(comment), enc_dict(flatten(d0)), ll, ind,
                                             common.enc(sp), common.enc(cont), " ".join(enc_op(o) for o in ops)),
             real_ws(show, comment, d0, ll, ind, sp, cont, ops), canon_ws, "ws")
+    for k in range(600 if thorough else 200):
+        cmd, dirs, yaml_entries, code, path_arg = gen_main_case(r)
+        add(enc_main_case(cmd, dirs, yaml_entries, code), real_main(tmp, k, cmd, dirs, yaml_entries, code, path_arg),
+            canon_mw, "mw")
     for v in ["", "\n", "a", "a\n", "a\nb", "a\nb\n", "\n\n", "a\n\nb\n", " x \n+\n", "a\r\nb"]:
         add("lf " + common.enc(v), real_lf(v), ident, "lf")
     for ext in [".f", ".f90", ".c", ".h", ".cpp", ".hpp", ".cxx", ".hxx", ".cc", ".C", ".py", ".lua", ".F", ".txt", "",
@@ -444,7 +578,7 @@ def tie(ctx, ok, tmp):
 
 # ------------------------------------------------------------------ oracle (implementation only)
 MARK = re.compile(r"^(\s*)(\S*) splicer (begin|end) (\S+)\s*$")
-CLEAN_VOCAB = ["return 1;", "  x = y + z;", "call foo(a, b)", "i = i + 1", "a+b-c", " -x", " +y", "x @ y ^ z", "#define FOO(a) a +",
+CLEAN_VOCAB = ["i = i +", "-x", "+y", "@z", "^label", "--", "+", "x = a +", "-}", "{+", "return 1;", "  x = y + z;", "call foo(a, b)", "i = i + 1", "a+b-c", " -x", " +y", "x @ y ^ z", "#define FOO(a) a +",
                "#include <stdio.h>", "if (x) {", "}", "", "   ", "end if  ", "! comment", "// comment", " -- lua comment",
                "x = '" + "long " * 40 + "'", "rv = name .ne. \" \"", "a: b", "'quoted'", "\"dq\"", "{ \"k\": [1, 2] }", "* star",
                "& amp", "% pct", "?", "~"]
@@ -546,7 +680,7 @@ def is_clean(l):
         return False
     if l == "" or l[0] == "#":
         return True
-    return l[0] not in "@^+-\r" and not l.endswith("+") and "\t" not in l and "\f" not in l
+    return l[0] != "\r" and "\t" not in l and "\f" not in l
 
 
 def parse_blocks(text):
@@ -582,15 +716,19 @@ SUFFIX = {"c": ".c", "f": ".f", "py": ".py", "lua": ".lua"}
 class Lib:
     """One corpus library, regenerated in fresh processes into scratch directories."""
 
-    def __init__(self, name, tmp):
+    def __init__(self, name, tmp, doc=None):
         import yaml
         from tools import shroudrun
         self.name, self.tmp, self.n = name, tmp, 0
-        ent = [c for c in shroudrun.CORPUS if c[0] == name][0]
-        self.extra = list(ent[2])
         self.reg = shroudrun.REG
-        with open(shroudrun.corpus_yaml(ent[1])) as fp:
-            self.base = yaml.safe_load(fp)
+        if doc is not None:         # a generated library (tools/gen/libgen.py)
+            self.extra = []
+            self.base = copy.deepcopy(doc)
+        else:
+            ent = [c for c in shroudrun.CORPUS if c[0] == name][0]
+            self.extra = list(ent[2])
+            with open(shroudrun.corpus_yaml(ent[1])) as fp:
+                self.base = yaml.safe_load(fp)
         self.base.pop("splicer", None)
         self.base.pop("splicer_code", None)
         strip_decl_splicers(self.base)      # the baseline has no user splicer of any kind
@@ -725,12 +863,15 @@ def func_decls(doc):
     return out
 
 
-def oracle_e2e(ctx, libname, tmp):
+def oracle_e2e(ctx, libname, tmp, doc=None):
     r = common.rng("c12-e2e-" + libname)
-    lib = Lib(libname, tmp)
+    lib = Lib(libname, tmp, doc)
     base_doc = lib.base
     rc, out, base_files, _ = lib.run(base_doc)
     if rc != 0:
+        if doc is not None:     # a generated description Shroud does not accept is not this property's business
+            ctx.note("e2e_%s_skipped" % libname, out[-300:])
+            return
         raise RuntimeError("baseline run of %s failed: %s" % (libname, out[-800:]))
     base_h = harvest(base_files)
     # names usable as user keys: not a strict dotted prefix of another one
@@ -827,7 +968,11 @@ def oracle_e2e(ctx, libname, tmp):
     pd = files_for(supd, "conf")
     doc = copy.deepcopy(base_doc)
     doc["splicer_code"] = {lang: nest(sorted(b.items())) for lang, b in supe.items()}
-    rc, out, files6, _ = lib.run(doc, cmd_files=list(pd.values()))
+    # the file side of the conflict comes from the command line for some languages, from YAML splicer: for the others
+    clangs = sorted(pd)
+    if clangs[1::2]:
+        doc["splicer"] = {lang: [os.path.basename(pd[lang])] for lang in clangs[1::2]}
+    rc, out, files6, _ = lib.run(doc, cmd_files=[pd[lang] for lang in clangs[::2]])
     if rc != 0:
         ctx.fail("e2e:%s:conflict:run-failed" % libname, "regeneration with conflicting sources failed: " + out[-400:], rp)
     else:
@@ -1094,6 +1239,14 @@ def run(ctx):
         libs = ["tutorial", "classes", "strings"] if not thorough else [c[0] for c in shroudrun.CORPUS]
         for name in libs:
             oracle_e2e(ctx, name, tmp)
+        # generated libraries besides the corpus
+        from tools.gen import libgen
+        rg = common.rng("c12-genlib")
+        ngen = 12 if thorough else 1
+        for k in range(ngen):
+            g = libgen.gen_lib(rg, name="genlib%d" % k, wrap={"wrap_python": True, "wrap_lua": rg.random() < 0.5})
+            oracle_e2e(ctx, "genlib%d" % k, tmp, g.todict())
+        ctx.note("generated_libraries", ngen)
         ctx.note("body_shapes_by_route", dict(sorted(SHAPE_STATS.items())))
         ctx.note("declaration_yaml_forms", dict(sorted(FORM_STATS.items())))
     finally:
@@ -1112,8 +1265,14 @@ def replay(path):
             oracle_carriage(ctx, tmp)
         if any(f["key"].startswith("reader") for f in d.get("failing", [])):
             oracle_reader(ctx, tmp)
+        from tools.gen import libgen
+        rg = common.rng("c12-genlib")
+        gens = {}
+        for k in range(12):
+            g = libgen.gen_lib(rg, name="genlib%d" % k, wrap={"wrap_python": True, "wrap_lua": rg.random() < 0.5})
+            gens["genlib%d" % k] = g.todict()
         for name in libs:
-            oracle_e2e(ctx, name, tmp)
+            oracle_e2e(ctx, name, tmp, gens.get(name))
     finally:
         common.rmtree(tmp)
     for f in ctx.failing:
